@@ -279,6 +279,11 @@ pub fn gen_args(r: &mut Rng, f: &mut Forest, op: &OpDef, mode: SizeMode) -> Id {
                 sig.pop();
             }
             3 => sig = vec![0; 64],
+            4 | 5 => {
+                // algebraic twins of a valid signature: (r, n - s) verifies mathematically as well (the "high-S" twin;
+                // libsecp256k1 semantics reject it for secp256k1, secp256r1 accepts it), (r, s + n) and (r + n, s) do not fit
+                sig = crate::genr::signature_twin(&sig, op.name == "secp256k1_verify", r.below(3));
+            }
             _ => {}
         }
         items = vec![f.atom(&t.0), f.atom(&msg), f.atom(&sig)];
